@@ -1,4 +1,5 @@
 mod alloc;
+mod placement;
 mod gen;
 mod harness;
 mod mval;
